@@ -24,6 +24,7 @@ REGISTRY = {
     'C13': ('checks.walk', 'check_c13', 'model_checking'),
     'C14': ('checks.walk', 'check_c14', 'fault_enumeration'),
     'C15': ('checks.registry', 'check_c15', 'model_checking'),
+    'C16': ('checks.color', 'check_c16', 'model_checking'),
     'C17': ('checks.calls', 'check_c17', 'other'),
     'C18': ('checks.config', 'check_c18', 'model_checking'),
     'C19': ('checks.history', 'check_c19', 'exploration'),
